@@ -149,7 +149,7 @@ theorem compile_correct_level (lv : Nat) (p : Program) (res : Result) (hp : CgPr
     rcases Nat.lt_or_ge j t.ops.length with h' | h'
     · exact h'
     · exfalso
-      obtain ⟨hm, hseq, hall⟩ := hp
+      obtain ⟨hm, hseq, hall, _, hml⟩ := hp
       unfold frontend at hf
       rw [hm] at hf
       simp only [sortMacros, compileMacros] at hf
@@ -163,8 +163,8 @@ theorem compile_correct_level (lv : Nat) (p : Program) (res : Result) (hp : CgPr
         rw [hr] at hf
         simp only [Except.ok.injEq] at hf
         subst hf
-        obtain ⟨its, _, _, _, _, hits, _⟩ := (compileRoutines_cg ⟨[], [], List.nodup_nil⟩ 1 lv p.routines 0 _ _ _ _ hseq rfl rfl hall rfl rfl
-          (wrapAssert_ok hr)).2 j r hj
+        obtain ⟨its, _, _, _, _, hits, _⟩ := (compileRoutines_cg { rs := [], N := [], hlab := List.nodup_nil, defs := allDefs p } 1 lv
+          p.routines 0 _ _ _ _ hseq rfl rfl hall hml rfl rfl (wrapAssert_ok hr)).2.2 j r hj
         simp only [Nat.zero_add] at hits
         rw [List.getElem?_eq_none h'] at hits
         cases hits
@@ -284,5 +284,45 @@ def exF3 : Program :=
 example : F3Prog exF3 := by decide
 example : ¬ F2Prog exF3 := by decide
 example : compiles exF3 = true := by decide
+
+/-! ### fragment F4: F3 + user labels, `jump`, `call` -/
+
+/-- F4 programs: as F3, and `§label;`, `jump @label;`, `call @label;` anywhere (in if / loop / case blocks too), jumps and calls
+into other routines included.  `CgProg` asks of every level: each user label is defined once (`allDefs p` without duplicates,
+the conjunct of `FrontGuard`), and every label a `jump` / `call` names is defined somewhere in the program (a jump to an
+undefined label is a `!STUCK` halt of the labelled code and an "undefined label" halt of the language semantics). -/
+def F4Prog (p : Program) : Prop := CgProg 4 p
+
+instance (p : Program) : Decidable (F4Prog p) := by unfold F4Prog; infer_instance
+
+/-- **The code generator is correct on F4**: source semantics of every routine ≈ labelled code of the front end. -/
+theorem codegen_correct_F4 (p : Program) (t : Tables) (hp : F4Prog p) (hf : frontend p = .ok t) (j : Nat) (r : Routine)
+    (hj : p.routines[j]? = some r) :
+    ∃ e, (toSrc p).graph.entries[j]? = some (some e) ∧
+      Equivalent (toSrc p).graph.lts (labLTS t.ops) e (labEntry t.ops j) :=
+  codegen_correct_level 4 p t hp hf j r hj
+
+/-- **The compiler is correct on F4**, end to end: source semantics of every routine ≈ SSB machine on the compiled ops. -/
+theorem compile_correct_F4 (p : Program) (res : Result) (hp : F4Prog p) (h : compile p = .ok res) (j : Nat) (r : Routine)
+    (hj : p.routines[j]? = some r) :
+    ∃ e, (toSrc p).graph.entries[j]? = some (some e) ∧
+      Equivalent (toSrc p).graph.lts (Machine.lts ⟨flatten (conv res.ops)⟩) e (Machine.entry ⟨flatten (conv res.ops)⟩ j) :=
+  compile_correct_level 4 p res hp h j r hj
+
+/-- non-vacuity: `def 0 { §top; a(); if (Branch 1) { jump @out; } while (Branch 2) { §mid; call @sub; if (Branch 3) { jump @mid; } }
+jump @top; §out; b(); } def 1 { §sub; c(); return; }` -/
+def exF4 : Program :=
+  ⟨[], [], [⟨some 0, "r0", none,
+    .cons (.label "top") (.cons (.op "a" [])
+    (.cons (.ite false [⟨false, "Branch", [.int 1]⟩] (.cons (.jump "out") .nil) .nil false .nil)
+    (.cons (.while_ false ⟨false, "Branch", [.int 2]⟩
+      (.cons (.label "mid") (.cons (.call "sub")
+      (.cons (.ite false [⟨false, "Branch", [.int 3]⟩] (.cons (.jump "mid") .nil) .nil false .nil) .nil))))
+    (.cons (.jump "top") (.cons (.label "out") (.cons (.op "b" []) .nil))))))⟩,
+   ⟨some 1, "r1", none, .cons (.label "sub") (.cons (.op "c" []) (.cons .ret .nil))⟩]⟩
+
+example : F4Prog exF4 := by decide
+example : ¬ F3Prog exF4 := by decide
+example : compiles exF4 = true := by decide
 
 end ESV.C01Frontend
